@@ -328,16 +328,25 @@ def t_make_residual(ctx):
                 return Model(lambda c2, fn, **kw: written.append((fn, hdu.fields['data'])), 'writeto')
             raise Undecided("HDUList." + name)
     mm_calls = []
+    FRAC_IN, SIGMA_IN = Sym(z3.Real('frac_given'), True), Sym(z3.Real('sigma_given'), True)
 
-    def c_make_model(c, source_list, shape, wcshelper, mask_=False, frac=None, sigma=4):
-        mm_calls.append((source_list, shape, mask_, frac, sigma))
+    # the call is bound against the REAL signature of make_model (argument order included)
+    real_args = [a.arg for a in find_function(FILE, 'make_model').args.args]
+
+    def c_make_model(c, *a, **kw):
+        bound = dict(zip(real_args, a))
+        dup = [k_ for k_ in kw if k_ in bound]
+        bound.update(kw)
+        if dup or any(k_ not in real_args for k_ in bound):
+            raise PyRaise(ExcValue('TypeError', ('make_model() got unexpected / multiple values',)))
+        mm_calls.append((bound.get('sources'), bound.get('shape'), bound.get('mask', False), bound.get('frac', None), bound.get('sigma', 4)))
         return model
     srcs = [mk_source(0)]
     g = {'np': lib.std_np(squeeze=Model(lambda c, x: x)), 'fits': Namespace('fits', open=Model(lambda c, f, **k: HL())),
          'wcs_helpers': Namespace('wcs_helpers', WCSHelper=Namespace('WCSHelper', from_header=Model(lambda c, h: Obj('helper')))),
          'load_sources': Model(lambda c, cat, **k: srcs), 'make_model': Model(c_make_model), 'logging': Namespace('logging')}
     out = run_function(ctx, FILE, 'make_residual', ["im.fits", "cat.fits", "res.fits"],
-                       {'mfile': "mod.fits", 'add': add, 'mask': mask, 'frac': None, 'sigma': 4}, globals_=g)
+                       {'mfile': "mod.fits", 'add': add, 'mask': mask, 'frac': FRAC_IN, 'sigma': SIGMA_IN}, globals_=g)
     lab = "make_residual.%s%s" % ("add" if add else "sub", ".mask" if mask else "")
     ok = out.kind == 'return' and len(written) == 2 and written[0][0] == "res.fits" and written[1][0] == "mod.fits"
     ctx.oblige("post", lab + ".writes_residual_then_model", ok)
@@ -352,7 +361,8 @@ def t_make_residual(ctx):
                    res.isnan((i, j)) == Or(data.isnan((i, j)), model.isnan((i, j)))) if isinstance(res, SArr) else False)
     ctx.oblige("post", lab + ".model_written_unchanged", written[1][1] is model)
     ctx.oblige("post", lab + ".model_made_with_callers_options",
-               len(mm_calls) == 1 and mm_calls[0][0] is srcs and mm_calls[0][2] is mask)
+               len(mm_calls) == 1 and mm_calls[0][0] is srcs and mm_calls[0][2] is mask and mm_calls[0][3] is FRAC_IN
+               and mm_calls[0][4] is SIGMA_IN)
     x, mval = Sym(z3.Real('d'), True), Sym(z3.Real('mv'), True)
     ctx.oblige("lemma", "add_then_subtract_restores_the_image", (x + mval) - mval == x, nohyps=True)
 
